@@ -761,4 +761,203 @@ theorem run_perm (ds ds' : List PolicyDesc) (hperm : ds.Perm ds') (cfg cfg' : Co
             | deny => exact hsent
             | useLast => exact hsent
 
+/-! ### the Cookie header after a cross-domain hop: only what the jar holds for that host -/
+
+theorem entriesFor_hset_same (h : Headers) (key v : Bytes) :
+    entriesFor (hset h key v) key =
+      (entriesFor h key).filter (fun e => !(e.1 == canonicalMIMEHeaderKey key)) ++
+        [(canonicalMIMEHeaderKey key, [v])] := by
+  simp only [hset, entriesFor_append]
+  congr 1
+  · simp only [entriesFor, hdel, List.filter_filter]
+    apply List.filter_congr
+    intro e _
+    exact Bool.and_comm _ _
+  · simp [entriesFor, List.filter, canonical_idem]
+
+theorem hget_of_entriesFor_eq {a b : Headers} {k : Bytes} (h : entriesFor a k = entriesFor b k) :
+    hget a k = hget b k := by
+  simp [hget, values_of_entriesFor_eq h]
+
+theorem addCookie_entries_congr {a b : Headers} (h : entriesFor a hCookie = entriesFor b hCookie)
+    (p : Bytes × Bytes) : entriesFor (addCookie a p) hCookie = entriesFor (addCookie b p) hCookie := by
+  simp only [addCookie, hget_of_entriesFor_eq h]
+  split <;> simp only [entriesFor_hset_same, h]
+
+theorem foldl_addCookie_entries_congr (cs : List (Bytes × Bytes)) {a b : Headers}
+    (h : entriesFor a hCookie = entriesFor b hCookie) :
+    entriesFor (cs.foldl addCookie a) hCookie = entriesFor (cs.foldl addCookie b) hCookie := by
+  induction cs generalizing a b with
+  | nil => exact h
+  | cons c cs ih => exact ih (addCookie_entries_congr h c)
+
+/-- The jar after the given (request host, Set-Cookie pairs) exchanges, starting empty. -/
+def jarAfter (pairs : List (Bytes × List (Bytes × Bytes))) : Jar :=
+  pairs.foldl (fun j p => j.setCookies p.1 p.2) []
+
+theorem jarAfter_snoc (pairs : List (Bytes × List (Bytes × Bytes))) (p : Bytes × List (Bytes × Bytes)) :
+    jarAfter (pairs ++ [p]) = (jarAfter pairs).setCookies p.1 p.2 := by
+  simp [jarAfter, List.foldl_append]
+
+/-- (request host, Set-Cookie pairs) of consecutive exchanges. -/
+def exchanges (reqs : List Loop.Req) (replies : List Reply) : List (Bytes × List (Bytes × Bytes)) :=
+  List.zipWith (fun q r => (q.url.host, r.setCookie)) reqs replies
+
+theorem hCookie_sensitive : isSensitive hCookie = true := by decide
+
+theorem cookie_ne_referer : canonicalMIMEHeaderKey hCookie ≠ hReferer := by decide
+
+/-- **Client cookies do not survive a cross-domain hop.** With a jar, once the sticky flag is set
+and no AlwaysCopy policy lists Cookie, the Cookie entries of a redirected request are exactly what
+`send` builds from the jar's cookies for that URL host on an EMPTY header map — the jar being fed
+only by the Set-Cookie lines of the replies received so far in this call. -/
+theorem chain_cookie (ds : List PolicyDesc) (cfg : Config) (hps : cfg.ps = ds.map PolicyDesc.denote)
+    (hjar : cfg.jar = true) (hcl : copyListed ds hCookie = false)
+    {st : State} {cur : Loop.Req} {rs : List Reply} {later : List Loop.Req}
+    (h : Chain cfg st cur rs later) (done : List (Bytes × List (Bytes × Bytes)))
+    (hdone : st.jar = jarAfter done) :
+    ∀ j (hj : j < later.length),
+      (st.strip || crossed (firstHost st.prev cur) ((later.take (j + 1)).map (·.url.host))) = true →
+      entriesFor later[j].hdr hCookie =
+        entriesFor (((jarAfter (done ++ exchanges (cur :: later.take j) (rs.take (j + 1)))).cookiesFor
+          later[j].url.host).foldl addCookie []) hCookie := by
+  induction h generalizing done with
+  | stop => intro j hj; simp at hj
+  | @step st cur r rs rm ib u st' next later' hs _ ih =>
+    have hstrip : st'.strip = (st.strip || goStrips false (firstHost st.prev cur) u.host) := by
+      rw [hs.hstrip]
+      simp only [nextRequest, firstHost_sendMutate]
+      exact goStrips_split _ _ _
+    have hnu : next.url = u := by simp [hs.hnext, nextRequest_url]
+    have hjar' : st'.jar = jarAfter (done ++ [(cur.url.host, r.setCookie)]) := by
+      rw [hs.hjar, jarAfter_snoc, hdone]; simp [hjar]
+    intro j hj hx
+    cases j with
+    | zero =>
+      simp only [List.getElem_cons_zero, List.take_zero, sendMutate_url]
+      have hnh : next.hdr = (checkRedirect cfg.ps
+          (nextRequest cfg st (sendMutate cfg st.jar cur) r u rm ib st'.copier).1 st.prev
+          (sendMutate cfg st.jar cur)).2 := by rw [hs.hnext]
+      have hpre : entriesFor next.hdr hCookie = entriesFor ([] : Headers) hCookie := by
+        rw [hnh]
+        have hal := hs.hallow
+        simp only [checkRedirect, hps] at hal ⊢
+        rw [entriesFor_compose_unlisted ds _ _ _ hCookie hcl hal,
+          entriesFor_nextRequest _ _ _ _ _ _ _ _ _ cookie_ne_referer]
+        have : (nextRequest cfg st (sendMutate cfg st.jar cur) r u rm ib st'.copier).2 = true := by
+          rw [← hs.hstrip, hstrip]
+          simpa [crossed, hnu] using hx
+        simp [this, hCookie_sensitive, entriesFor]
+      have : (sendMutate cfg st'.jar next).hdr = (st'.jar.cookiesFor next.url.host).foldl addCookie next.hdr := by
+        simp [sendMutate, hjar]
+      rw [this, foldl_addCookie_entries_congr _ hpre, hjar']
+      simp [exchanges]
+    | succ j =>
+      simp only [List.getElem_cons_succ]
+      have := ih _ hjar' j (by simpa using hj) (by
+        rw [hs.hprev, firstHost_snoc, firstHost_sendMutate, hstrip]
+        simp only [List.take_succ_cons, List.map_cons, sendMutate_url, hnu, crossed_cons] at hx
+        simpa [Bool.or_assoc] using hx)
+      rw [this]
+      have hex : exchanges (cur :: sendMutate cfg st'.jar next :: List.take j later') (r :: List.take (j + 1) rs) =
+          (cur.url.host, r.setCookie) :: exchanges (next :: List.take j later') (List.take (j + 1) rs) := by
+        simp only [exchanges, List.zipWith_cons_cons]
+        congr 1
+        cases List.take (j + 1) rs <;> simp
+      simp only [List.take_succ_cons, hex, List.append_assoc, List.singleton_append]
+
+/-- Host-only: what the jar returns for a host was set by replies to requests for the same
+(canonical) host. -/
+theorem upsert_mem (j : Jar) (d n v : Bytes) (e : JarEntry) (he : e ∈ j.upsert d n v) :
+    e ∈ j ∨ (e.domain = d ∧ e.name = n ∧ e.value = v) ∨
+      (∃ e0 ∈ j, e0.domain = d ∧ e0.name = n ∧ e = { e0 with value := v }) := by
+  unfold Jar.upsert at he
+  split at he
+  · obtain ⟨e0, he0, heq⟩ := List.mem_map.mp he
+    split at heq
+    · rename_i hc
+      simp only [Bool.and_eq_true, beq_iff_eq] at hc
+      exact Or.inr (Or.inr ⟨e0, he0, hc.1, hc.2, heq.symm⟩)
+    · exact Or.inl (heq ▸ he0)
+  · rcases List.mem_append.mp he with h | h
+    · exact Or.inl h
+    · simp only [List.mem_singleton] at h
+      exact Or.inr (Or.inl (by simp [h]))
+
+theorem setCookies_prov (j : Jar) (host : Bytes) (cs : List (Bytes × Bytes)) (e : JarEntry)
+    (he : e ∈ j.setCookies host cs) :
+    (∃ e0 ∈ j, e0.domain = e.domain ∧ e0.name = e.name ∧ (e0.value = e.value ∨ (e.name, e.value) ∈ cs ∧
+        jarCanonicalHost host = some e.domain)) ∨
+      (jarCanonicalHost host = some e.domain ∧ (e.name, e.value) ∈ cs) := by
+  unfold Jar.setCookies at he
+  cases hh : jarCanonicalHost host with
+  | none => rw [hh] at he; exact Or.inl ⟨e, he, rfl, rfl, Or.inl rfl⟩
+  | some hd =>
+    rw [hh] at he
+    simp only at he
+    induction cs generalizing j with
+    | nil => exact Or.inl ⟨e, he, rfl, rfl, Or.inl rfl⟩
+    | cons c cs ih =>
+      simp only [List.foldl_cons] at he
+      rcases ih _ he with ⟨e1, he1, hd1, hn1, hv1⟩ | ⟨hc, hm⟩
+      · rcases upsert_mem j _ _ _ e1 he1 with h0 | ⟨h1, h2, h3⟩ | ⟨e0, he0, h1, h2, h3⟩
+        · refine Or.inl ⟨e1, h0, hd1, hn1, ?_⟩
+          rcases hv1 with hv | ⟨hm, hc⟩
+          · exact Or.inl hv
+          · exact Or.inr ⟨List.mem_cons_of_mem _ hm, hc⟩
+        · rcases hv1 with hv | ⟨hm, hc⟩
+          · refine Or.inr ⟨by rw [← hd1, h1], ?_⟩
+            rw [← hn1, ← hv, h2, h3]; simp
+          · exact Or.inr ⟨hc, List.mem_cons_of_mem _ hm⟩
+        · subst h3
+          simp only at hd1 hn1 hv1
+          refine Or.inl ⟨e0, he0, hd1, hn1, ?_⟩
+          rcases hv1 with hv | ⟨hm, hc⟩
+          · refine Or.inr ⟨?_, by rw [← hd1, h1]⟩
+            rw [← hn1, ← hv, h2]; simp
+          · exact Or.inr ⟨List.mem_cons_of_mem _ hm, hc⟩
+      · exact Or.inr ⟨hc, List.mem_cons_of_mem _ hm⟩
+
+/-- **Jar cookies are host-only.** Every entry of the jar was set by a reply to a request whose
+canonical host is the entry's domain. -/
+theorem foldl_setCookies_prov (pairs pre : List (Bytes × List (Bytes × Bytes))) (j0 : Jar)
+    (h0 : ∀ e ∈ j0, ∃ p ∈ pre, jarCanonicalHost p.1 = some e.domain ∧ (e.name, e.value) ∈ p.2) :
+    ∀ e ∈ pairs.foldl (fun j p => j.setCookies p.1 p.2) j0,
+      ∃ p ∈ pre ++ pairs, jarCanonicalHost p.1 = some e.domain ∧ (e.name, e.value) ∈ p.2 := by
+  induction pairs generalizing j0 pre with
+  | nil => simpa using h0
+  | cons p ps ih =>
+    intro e he
+    simp only [List.foldl_cons] at he
+    have := ih (pre ++ [p]) (j0.setCookies p.1 p.2) (by
+      intro e' he'
+      rcases setCookies_prov _ _ _ e' he' with ⟨e0, he0, hd, hn, hv⟩ | ⟨hc, hm⟩
+      · rcases hv with hv | ⟨hm, hc⟩
+        · obtain ⟨q, hq, h1, h2⟩ := h0 e0 he0
+          exact ⟨q, by simp [hq], by rw [h1, hd], by rw [← hn, ← hv]; exact h2⟩
+        · exact ⟨p, by simp, hc, hm⟩
+      · exact ⟨p, by simp, hc, hm⟩) e he
+    simpa using this
+
+theorem jarAfter_prov (pairs : List (Bytes × List (Bytes × Bytes))) (e : JarEntry) (he : e ∈ jarAfter pairs) :
+    ∃ p ∈ pairs, jarCanonicalHost p.1 = some e.domain ∧ (e.name, e.value) ∈ p.2 := by
+  have := foldl_setCookies_prov pairs [] [] (by simp) e he
+  simpa using this
+
+theorem cookiesFor_prov (pairs : List (Bytes × List (Bytes × Bytes))) (host : Bytes) (c : Bytes × Bytes)
+    (hc : c ∈ (jarAfter pairs).cookiesFor host) :
+    ∃ p ∈ pairs, jarCanonicalHost p.1 = jarCanonicalHost host ∧ c ∈ p.2 := by
+  unfold Jar.cookiesFor at hc
+  split at hc
+  · simp at hc
+  · rename_i h hh
+    obtain ⟨e, he, hce⟩ := List.mem_map.mp hc
+    simp only [List.mem_filter, beq_iff_eq] at he
+    obtain ⟨p, hp, h1, h2⟩ := jarAfter_prov pairs e he.1
+    exact ⟨p, hp, by rw [h1, hh, he.2], by rw [← hce]; exact h2⟩
+
+theorem exchanges_head_congr (a b : Loop.Req) (l : List Loop.Req) (rs : List Reply)
+    (h : a.url.host = b.url.host) : exchanges (a :: l) rs = exchanges (b :: l) rs := by
+  cases rs <;> simp [exchanges, h]
+
 end Req.Lemmas.C11Loop
